@@ -308,8 +308,6 @@ func otherGroup(g []byte) []byte {
 
 // ---------------------------------------------------------------------------------------------
 
-type helloLike interface{ marshal() []byte }
-
 // chMut / shMut wrap a structural edit into a body function.
 func chMut(name, field string, edit func(h *chello) bool) mut {
 	return mut{Name: name, Field: field, Fn: func(b []byte) []byte {
@@ -435,7 +433,9 @@ func extMuts(exts []ext, hasExts bool, server, hrr bool, wrap func(name, field s
 // fieldMuts is the field-level catalogue for one target.
 func fieldMuts(t target, md *mode) []mut {
 	var out []mut
-	raw := func(name, field string, fn func(b []byte) []byte) { out = append(out, mut{Name: name, Field: field, Fn: fn}) }
+	raw := func(name, field string, fn func(b []byte) []byte) {
+		out = append(out, mut{Name: name, Field: field, Fn: fn})
+	}
 	switch t.Type {
 	case hsClientHello:
 		h, err := parseCH(t.Body)
